@@ -5,6 +5,7 @@
 //! (send_local), `T:t0:3` (set_timer, delay in half units), `O:t0:3` (set_timer_once), `C:t0`
 //! (cancel_timer), `K:m1` (send_local carrying the clock reading), `R:m1` (send_local carrying
 //! ctx.rand() bits).  `<data>` is `=text` (literal) or `$` (echo the triggering payload).
+use std::cell::RefCell;
 use std::rc::Rc;
 
 use anysystem::process::StringProcessState;
@@ -101,13 +102,13 @@ pub fn trig_code(trig: &str) -> u64 {
 
 #[derive(Clone)]
 pub struct ScriptProc {
-    pub script: Rc<Script>,
+    pub script: Rc<RefCell<Script>>,
     pub st: u64,
     pub hist: Vec<u64>,
 }
 
 impl ScriptProc {
-    pub fn new(script: Rc<Script>) -> Self {
+    pub fn new(script: Rc<RefCell<Script>>) -> Self {
         Self {
             script,
             st: 0,
@@ -121,12 +122,17 @@ impl ScriptProc {
     }
 
     fn react(&mut self, trig: String, data: &str, ctx: &mut Context) {
-        if self.script.record {
+        if self.script.borrow().record {
             self.hist.push(trig_code(&trig));
         }
-        let rule = self.script.rules.iter().find(|r| r.st == self.st && r.trig == trig);
+        let rule = self
+            .script
+            .borrow()
+            .rules
+            .iter()
+            .find(|r| r.st == self.st && r.trig == trig)
+            .cloned();
         if let Some(rule) = rule {
-            let rule = rule.clone();
             self.st = rule.st2;
             for act in &rule.acts {
                 let dat = |d: &Data| match d {
